@@ -695,6 +695,19 @@ def c17_extra(tier, rnd):
                      {"c": "in", "pkts": [pub(topic="x"), pub(q=1, id=1, topic=t2, alias=1), pub(topic="", alias=1), pub(topic="", alias=1)]},
                      {"c": "drain"}]
             runs.append(dict(cfg=cfg, cmds=cmds, src="after_disconnect"))
+    # aliases carried by a PUBLISH that is refused because its packet id is still in use (handler of the first one
+    # gated): the peer has bound the alias all the same, and a bad alias ends the connection whatever the id
+    for role in ("server", "client"):
+        cfg = dict(role=role, ver=5, gate_pub=1, gate_proto=0, max_qos=2, max_receive=16, max_receive_size=0, strict=17)
+        cfg["max_topic_alias" if role == "server" else "client_topic_alias_max"] = 2
+        p = lambda **kw: {"c": "in", "p": dict({"t": "publish", "q": 1, "id": 1, "topic": "a", "plen": 1, "fill": 99}, **kw)}
+        q0 = lambda **kw: {"c": "in", "p": dict({"t": "publish", "q": 0, "id": 0, "topic": "b", "plen": 1, "fill": 97}, **kw)}
+        hs = handshake(role, 5, connect={"rm": 16}) if role == "server" else handshake(role, 5)
+        for mid in ([q0(alias=1), p(topic="", alias=1), p(alias=1), q0(topic="", alias=1)],      # rebinding by a refused publish
+                    [q0(alias=1), p(alias=1), p(alias=3)],                                          # above the maximum
+                    [q0(topic="a", alias=1), p(topic="", alias=1), p(topic="", alias=2)],           # unbound
+                    [p(), p(topic="b", alias=2), q0(topic="", alias=2)]):                           # first binding by a refused publish
+            runs.append(dict(cfg=cfg, cmds=[hs] + mid + [{"c": "drain"}], src="alias_dup_id"))
     return runs
 
 
